@@ -1713,4 +1713,198 @@ Proof.
     split; [exact T1|]. split; [exact L2|]. split; [exact Nk|].
     rewrite T2, T3, W. reflexivity.
 Qed.
+
+Lemma slen_opt_schedule i q g : length (g_slots (opt_schedule i q g)) = length (g_slots g).
+Proof. destruct q; simpl; auto. apply schedule_node_len. Qed.
+
+Lemma slen_notify l : forall j src g, length (g_slots (notify_from l j src g)) = length (g_slots g).
+Proof. induction l as [|c r IH]; intros j src g; simpl; auto. rewrite IH. destruct (_ && _); auto. apply schedule_node_len. Qed.
+
+Lemma slen_do_op i st opi o g : length (g_slots (do_op cfgs i st opi o g)) = length (g_slots g).
+Proof.
+  unfold do_op. destruct (negb (g_err g =? 0)); auto. cbn zeta.
+  destruct o.
+  - destruct (c_sched _); auto. destruct (schedule _ _ _ _ _) as [s' q]. simpl. rewrite slen_opt_schedule. reflexivity.
+  - destruct (c_sched _); auto.
+  - destruct (c_sched _); auto.
+  - destruct (c_sched _); auto. destruct (pop_tag _ _ _) as [s' w]. reflexivity.
+  - destruct (c_sched _); auto.
+  - destruct (_ && _); auto. simpl. rewrite slen_notify. reflexivity.
+  - apply schedule_node_len.
+  - reflexivity.
+  - reflexivity.
+  - reflexivity.
+  - reflexivity.
+Qed.
+
+Lemma slen_do_ops i st os : forall opi g, length (g_slots (do_ops cfgs i st opi os g)) = length (g_slots g).
+Proof. induction os as [|o r IH]; intros opi g; simpl; auto. rewrite IH. apply slen_do_op. Qed.
+
+Lemma slen_eval_node i g : length (g_slots (eval_node cfgs beh i g)) = length (g_slots g).
+Proof.
+  unfold eval_node. destruct (negb (n_started (node_at i g))); auto. cbn zeta.
+  assert (TAIL : forall g1 (b : bool),
+     length (g_slots (if negb (g_err g1 =? 0) then g1 else
+        if c_sched (nth i cfgs dflt_cfg) then
+          (if b then let '(s', push) := advance (g_now g) (n_sch (node_at i g1)) in opt_schedule i push (upd_node i (set_sch s') g1)
+           else if is_scheduled (n_sch (node_at i g1)) then schedule_node i (next_scheduled_time (n_sch (node_at i g1))) g1 else g1)
+        else g1)) = length (g_slots g1)).
+  { intros g1 b. destruct (negb (g_err g1 =? 0)); auto. destruct (c_sched _); auto. destruct b.
+    - destruct (advance _ _) as [s' q]. rewrite slen_opt_schedule. reflexivity.
+    - destruct (is_scheduled _); auto. apply schedule_node_len. }
+  rewrite TAIL.
+  destruct (match c_ins (nth i cfgs dflt_cfg) with [] => true | _ => ready (nth i cfgs dflt_cfg) g end); auto.
+  rewrite slen_do_ops. reflexivity.
+Qed.
+
+(* ---- the scan: a node is due when the scan reaches it iff it was due at the start of the
+   cycle or an earlier node wrote an output one of its active inputs is bound to ---- *)
+Definition cause_b (g0 g : gst) (k j : nat) : bool :=
+  existsb (fun p => wrote g p && act_from g0 j p) (seq 0 k) && n_started (node_at j g0).
+
+Definition scan_inv (g0 : gst) (k : nat) (g : gst) : Prop :=
+  length (g_slots g) = n /\ length (g_nodes g) = n /\ g_now g = g_now g0 /\
+  (forall j, (k <= j < n)%nat -> node_at j g = node_at j g0 /\
+             slot_at j g = (if cause_b g0 g k j then g_now g0 else slot_at j g0)).
+
+Lemma cause_b_step g0 g g' k j :
+  (forall p, (p < k)%nat -> wrote g' p = wrote g p) ->
+  cause_b g0 g' (S k) j = cause_b g0 g k j || (wrote g' k && act_from g0 j k && n_started (node_at j g0)).
+Proof.
+  intros H. unfold cause_b. rewrite seq_S. simpl. rewrite existsb_app. simpl. rewrite orb_false_r.
+  assert (E : existsb (fun p => wrote g' p && act_from g0 j p) (seq 0 k) = existsb (fun p => wrote g p && act_from g0 j p) (seq 0 k)).
+  { clear - H. assert (G : forall l, (forall p, In p l -> (p < k)%nat) ->
+        existsb (fun p => wrote g' p && act_from g0 j p) l = existsb (fun p => wrote g p && act_from g0 j p) l).
+    { induction l as [|x r IH]; intros Hl; simpl; auto. rewrite H by (apply Hl; left; auto). rewrite IH; auto. intros; apply Hl; right; auto. }
+    apply G. intros p Hp. apply in_seq in Hp. lia. }
+  rewrite E. set (X := existsb (fun p => wrote g p && act_from g0 j p) (seq 0 k)).
+  destruct X, (n_started (node_at j g0)), (wrote g' k), (act_from g0 j k); reflexivity.
+Qed.
+
+Lemma scan_cause m : forall k g0 g,
+  (k + m = n)%nat -> scan_inv g0 k g ->
+  (forall p, (p < n)%nat -> n_lmt (node_at p g0) < g_now g0) ->
+  let gf := scan cfgs beh k m g in
+  g_err gf = 0 ->
+  forall i, (k <= i < n)%nat ->
+    n_evals (node_at i gf) = n_evals (node_at i g0) +
+      (if (slot_at i g0 =? g_now g0) || cause_b g0 gf i i then 1 else 0).
+Proof.
+  induction m as [|m IH]; intros k g0 g Hkm (L1 & L2 & Hnow & HJ) Hold gf Herr i Hi; unfold gf in *; simpl in *.
+  - lia.
+  - destruct (negb (g_err g =? 0)) eqn:E0; [lia|].
+    assert (Hk : (k < n)%nat) by lia.
+    destruct (HJ k ltac:(lia)) as [Nk Sk].
+    assert (Wk : wrote g k = false).
+    { unfold wrote. rewrite Nk, Hnow. specialize (Hold k Hk). lia. }
+    set (g' := if slot_at k g =? g_now g then _ else _) in *.
+    assert (Herr' : g_err g' = 0).
+    { destruct (Z.eq_dec (g_err g') 0); auto. rewrite scan_err_sticky in Herr by auto. contradiction. }
+    (* the step re-establishes the invariant at S k and decides node k *)
+    assert (STEP : scan_inv g0 (S k) g' /\ (forall p, (p < k)%nat -> node_at p g' = node_at p g) /\
+                   n_evals (node_at k g') = n_evals (node_at k g0) + (if slot_at k g =? g_now g then 1 else 0) /\
+                   (forall p, (p <= k)%nat -> forall mm kk, (p < kk)%nat -> node_at p (scan cfgs beh kk mm g') = node_at p g')).
+    { split; [|split; [|split]].
+      - unfold g'. destruct (slot_at k g =? g_now g) eqn:Es.
+        + set (gx := upd_node k inc_evals (emit [11; Z.of_nat k; g_now g] g)).
+          assert (X1 : length (g_slots gx) = n) by (unfold gx; auto).
+          assert (X2 : length (g_nodes gx) = n) by (unfold gx; simpl; rewrite update_length; auto).
+          assert (Wx : wrote gx k = false).
+          { unfold wrote, gx. rewrite node_at_upd_same by (simpl; lia). rewrite node_at_emit. exact Wk. }
+          split; [|split; [|split]].
+          * rewrite slen_eval_node; auto.
+          * rewrite len_eval_node; auto.
+          * rewrite eval_node_now. unfold gx. simpl. exact Hnow.
+          * intros j Hj. destruct (eval_node_slot_other k gx j X1 X2 Hk ltac:(lia) ltac:(lia) Wx) as (_ & _ & Nj & Sj).
+            assert (Njx : node_at j gx = node_at j g) by (unfold gx; rewrite node_at_upd_node_other by lia; apply node_at_emit).
+            destruct (HJ j ltac:(lia)) as [Nj0 Sj0].
+            split; [rewrite Nj, Njx; exact Nj0|].
+            rewrite Sj. rewrite (cause_b_step g0 g (eval_node cfgs beh k gx) k j).
+            2:{ intros p Hp. unfold wrote. rewrite eval_node_now. rewrite eval_node_other by lia.
+                unfold gx. rewrite node_at_upd_node_other by lia. rewrite node_at_emit. reflexivity. }
+            unfold act_from. rewrite Njx, Nj0.
+            change (slot_at j gx) with (slot_at j g). change (g_now gx) with (g_now g). rewrite Sj0, Hnow.
+            destruct (cause_b g0 g k j); simpl;
+              repeat match goal with |- context [if ?b then _ else _] => destruct b end; reflexivity.
+        + assert (SAME : forall gq, g_slots gq = g_slots g -> g_nodes gq = g_nodes g -> g_now gq = g_now g -> scan_inv g0 (S k) gq).
+          { intros gq Q1 Q2 Q3. unfold scan_inv. rewrite Q1, Q2, Q3. split; auto. split; auto. split; auto.
+            intros j Hj. destruct (HJ j ltac:(lia)) as [Nj0 Sj0].
+            unfold node_at, slot_at in *. rewrite Q1, Q2. split; auto.
+            fold (slot_at j g). unfold slot_at. rewrite Sj0.
+            rewrite (cause_b_step g0 g gq k j).
+            2:{ intros p Hp. unfold wrote, node_at. rewrite Q2, Q3. reflexivity. }
+            assert (Wq : wrote gq k = false) by (unfold wrote, node_at; rewrite Q2, Q3; exact Wk).
+            rewrite Wq. simpl. rewrite orb_false_r. reflexivity. }
+          destruct (g_now g <? slot_at k g); [destruct (slot_at k g <? g_nst g)|]; apply SAME; reflexivity.
+      - intros p Hp. unfold g'. destruct (slot_at k g =? g_now g).
+        + rewrite eval_node_other by lia. rewrite node_at_upd_node_other by lia. apply node_at_emit.
+        + destruct (g_now g <? slot_at k g); [destruct (slot_at k g <? g_nst g)|]; reflexivity.
+      - unfold g'. destruct (slot_at k g =? g_now g).
+        + rewrite eval_node_evals. rewrite node_at_upd_same by (simpl; lia). rewrite node_at_emit, Nk. reflexivity.
+        + assert (E : forall gq, g_nodes gq = g_nodes g -> n_evals (node_at k gq) = n_evals (node_at k g0) + 0).
+          { intros gq Q. assert (Hq : node_at k gq = node_at k g) by (unfold node_at; rewrite Q; reflexivity). rewrite Hq, Nk. lia. }
+          destruct (g_now g <? slot_at k g); [destruct (slot_at k g <? g_nst g)|]; apply E; reflexivity.
+      - intros p Hp mm kk Hlt. apply scan_prefix_final. exact Hlt. }
+    destruct STEP as (INV' & PREV & EVK & FIN).
+    destruct (Nat.eq_dec i k) as [->|Hne].
+    + (* node k itself: decided now, untouched by the rest of the scan *)
+      rewrite (FIN k (Nat.le_refl k) m (S k) ltac:(lia)). rewrite EVK.
+      rewrite Sk, Hnow.
+      assert (CB : cause_b g0 (scan cfgs beh (S k) m g') k k = cause_b g0 g k k).
+      { unfold cause_b. f_equal.
+        assert (G : forall l, (forall p, In p l -> (p < k)%nat) ->
+            existsb (fun p => wrote (scan cfgs beh (S k) m g') p && act_from g0 k p) l = existsb (fun p => wrote g p && act_from g0 k p) l).
+        { induction l as [|x r IHl]; intros Hl; simpl; auto.
+          assert (Hx : (x < k)%nat) by (apply Hl; left; auto).
+          assert (Wx : wrote (scan cfgs beh (S k) m g') x = wrote g x).
+          { unfold wrote. rewrite scan_now. rewrite (FIN x ltac:(lia) m (S k) ltac:(lia)). rewrite (PREV x Hx).
+            destruct INV' as (_ & _ & N' & _). rewrite N', Hnow. reflexivity. }
+          rewrite Wx, IHl; auto. intros; apply Hl; right; auto. }
+        apply G. intros p Hp. apply in_seq in Hp. lia. }
+      rewrite CB.
+      destruct (cause_b g0 g k k); [rewrite Z.eqb_refl, orb_true_r; reflexivity|].
+      rewrite orb_false_r. reflexivity.
+    + apply (IH (S k) g0 g' ltac:(lia) INV' Hold Herr i ltac:(lia)).
+Qed.
 End Cause.
+
+(* C03, the evaluation gate: in the cycle at t a node is evaluated by the graph exactly when its slot
+   held t at the start of the cycle (a wake-up it asked for: scheduler event, start request,
+   raw request - or the stale slot of the recorded finding) or a node before it wrote, in this cycle,
+   an output that one of its ACTIVE inputs is bound to. *)
+Theorem evaluated_iff_cause cfgs beh t g :
+  length (g_slots g) = length cfgs -> length (g_nodes g) = length cfgs ->
+  (forall p, (p < length cfgs)%nat -> n_lmt (node_at p g) < t) ->
+  let gf := evaluate_graph cfgs beh t g in
+  g_err gf = 0 ->
+  forall i, (i < length cfgs)%nat ->
+    (n_evals (node_at i gf) = n_evals (node_at i g) + 1 <->
+       slot_at i g = t \/
+       (n_started (node_at i g) = true /\
+        exists p, (p < i)%nat /\ n_lmt (node_at p gf) = t /\ act_from cfgs g i p = true)) /\
+    (n_evals (node_at i gf) = n_evals (node_at i g) \/ n_evals (node_at i gf) = n_evals (node_at i g) + 1).
+Proof.
+  intros L1 L2 Hold gf Herr i Hi. unfold gf, evaluate_graph in *.
+  set (g0 := mkG t (g_slots g) MAX_DT (g_nodes g) ([10; t] :: g_log g) (g_err g)) in *.
+  assert (INV : scan_inv cfgs g0 0 g0).
+  { split; [exact L1|]. split; [exact L2|]. split; [reflexivity|]. intros j Hj. split; auto. }
+  pose proof (scan_cause cfgs beh (length cfgs) 0%nat g0 g0 ltac:(lia) INV Hold Herr i ltac:(lia)) as E.
+  change (node_at i g0) with (node_at i g) in E. change (slot_at i g0) with (slot_at i g) in E. change (g_now g0) with t in E.
+  set (gF := scan cfgs beh 0 (length cfgs) g0) in *.
+  assert (CB : cause_b cfgs g0 gF i i = true <->
+               (n_started (node_at i g) = true /\ exists p, (p < i)%nat /\ n_lmt (node_at p gF) = t /\ act_from cfgs g i p = true)).
+  { unfold cause_b. rewrite andb_true_iff, existsb_exists. change (node_at i g0) with (node_at i g).
+    assert (NowF : g_now gF = t) by (unfold gF; rewrite scan_now; reflexivity).
+    split.
+    - intros [[p [Hp Hw]] Hs]. split; auto. apply in_seq in Hp. apply andb_true_iff in Hw. destruct Hw as [W A].
+      exists p. split; [lia|]. split; [unfold wrote in W; lia|]. exact A.
+    - intros [Hs [p [Hp [W A]]]]. split; auto. exists p. split; [apply in_seq; lia|].
+      apply andb_true_iff. split; [unfold wrote; lia|exact A]. }
+  split.
+  - rewrite E. destruct (slot_at i g =? t) eqn:Es; simpl.
+    + split; [intros _; left; lia|lia].
+    + destruct (cause_b cfgs g0 gF i i) eqn:Ec.
+      * split; [intros _; right; apply CB; reflexivity|lia].
+      * split; [lia|]. intros [H|H]; [lia|]. apply CB in H. discriminate.
+  - rewrite E. destruct ((slot_at i g =? t) || cause_b cfgs g0 gF i i); [right|left]; lia.
+Qed.
